@@ -56,7 +56,9 @@ impl<T: Types> PayloadCache<T> {
     pub(crate) fn insert(&mut self, key: T::LogId, value: T::LogPayload) {
         let payload_size = T::payload_size(&value) as usize;
 
-        self.cache.insert(key, value);
+        if let Some(replaced) = self.cache.insert(key, value) {
+            self.size -= T::payload_size(&replaced) as usize;
+        }
         self.size += payload_size;
 
         self.try_evict();
